@@ -35,7 +35,11 @@ var c07Alpha = []*BatchSpec{
 // The last three rounds (big value + child A; A deleted and recreated next to a top-level write; deletion of a key
 // inside A) are only used by the
 // child-collection family.
-var c07Rounds = [][]int{{0}, {1}, {2}, {3}, {4}, {5}, {6}, {7, 8}, {9}, {7, 10}, {11}}
+var c07Rounds = [][]int{{0}, {1}, {2}, {3}, {4}, {5}, {6}, {7, 8}, {9}, {7, 10}, {11}, {}}
+
+// c07IdleRound: a round without data (a "mergeAll" ping on an idle collection) - the path an idle compaction takes:
+// the persister hands the store an empty stack, newDataSize is 0 and CompactionAllow compacts everything.
+const c07IdleRound = 11
 
 const c07GeneralRounds = 8
 
@@ -174,11 +178,20 @@ func c07One(cfg Config, seq []int, res *c07Res) *Violation {
 		for _, b := range c07Rounds[bi] {
 			steps = append(steps, fmt.Sprintf("B%d", b))
 		}
-		for _, st := range append(steps, "M") {
+		steps = append(steps, "M")
+		if len(c07Rounds[bi]) == 0 {
+			steps = []string{"MA"}
+		}
+		for _, st := range steps {
 			if !w.Step(st) {
 				res.Infra = where + ": step " + st + " not enabled"
 				return nil
 			}
+		}
+		if len(c07Rounds[bi]) == 0 && (w.persister == nil || !w.s.Enabled(w.persister)) {
+			// nothing was ever written: the merger has no stack to hand down, there is no round
+			res.Splices["idle round without any data: no persistence round"]++
+			continue
 		}
 		ok, _ := w.PersistRound(0)
 		res.Rounds++
@@ -306,6 +319,23 @@ func checkC07(prop, tier string) int {
 		}
 	}
 	genChild(nil)
+	// idle family: rounds without data between rounds with data (one key, a large value, delete + insert)
+	var idleSeqs [][]int
+	idleRounds := 4
+	if tier == "thorough" {
+		idleRounds = 5
+	}
+	var genIdle func(cur []int)
+	genIdle = func(cur []int) {
+		if len(cur) == idleRounds {
+			idleSeqs = append(idleSeqs, append([]int{}, cur...))
+			return
+		}
+		for _, i := range []int{0, 2, 3, c07IdleRound} {
+			genIdle(append(cur, i))
+		}
+	}
+	genIdle(nil)
 	var jobs []Job
 	cfgs := c07Configs(tier)
 	addJobs := func(cfg Config, seqs [][]int) {
@@ -320,6 +350,7 @@ func checkC07(prop, tier string) int {
 	for _, cfg := range cfgs {
 		if cfg.Concern == 1 {
 			addJobs(cfg, childSeqs) // first, so that a deadline cuts the general family rather than this one
+			addJobs(cfg, idleSeqs)
 		}
 	}
 	for _, cfg := range cfgs {
@@ -386,13 +417,14 @@ func checkC07(prop, tier string) int {
 			"traces_validated_against_impl": tot.Seqs,
 			"evaluations":                   tot.Seqs,
 			"distinct_nontrivial":           len(tot.Splices),
-			"rule":                          "every sequence of R persistence rounds over an 8-round alphabet (1 key, 3 keys, a 5000-byte value, overwrite, delete+insert, child-collection write + delete, deletion of a never-set last key, child collection deleted and recreated within one round) x option points (concern, CompactionLevelMaxSegments, CompactionLevelMultiplier, CompactionPercentage, CompactionBufferPages, NoSync), plus, on the CompactionAllow option points, every sequence of R+1 (thorough R+2) rounds over the child-collection sub-alphabet (large value + child A written; child A written; A deleted and recreated within one round next to a top-level write; a key of A deleted; 1 key), on the real collection + store under the controlled scheduler; after every round: store snapshot == collection snapshot == reference; after a full compaction: <=1 segment per collection, no deletion markers, no duplicate keys; at the end: one data file. distinct_nontrivial = distinct (segments before -> after, compaction kind) transitions observed, i.e. the splice points exercised",
+			"rule":                          "every sequence of R persistence rounds over an 8-round alphabet (1 key, 3 keys, a 5000-byte value, overwrite, delete+insert, child-collection write + delete, deletion of a never-set last key, child collection deleted and recreated within one round) x option points (concern, CompactionLevelMaxSegments, CompactionLevelMultiplier, CompactionPercentage, CompactionBufferPages, NoSync), plus, on the CompactionAllow option points, every sequence of R+1 (thorough R+2) rounds over the child-collection sub-alphabet (large value + child A written; child A written; A deleted and recreated within one round next to a top-level write; a key of A deleted; 1 key) and every sequence of R rounds over {1 key, large value, delete + insert, a round without data = the idle-compaction path}, on the real collection + store under the controlled scheduler; after every round: store snapshot == collection snapshot == reference; after a full compaction: <=1 segment per collection, no deletion markers, no duplicate keys; at the end: one data file. distinct_nontrivial = distinct (segments before -> after, compaction kind) transitions observed, i.e. the splice points exercised",
 			"samples":                       samples,
 			"exhaustive":                    infra == 0 && skipped == 0,
 			"cap_hit":                       fmt.Sprintf("%d of %d jobs skipped by the deadline", skipped, len(jobs)),
 			"rounds_per_sequence":           rounds,
 			"child_family_rounds":           childRounds,
 			"child_family_sequences":        len(childSeqs),
+			"idle_family_sequences":         len(idleSeqs),
 			"sequences_run":                 tot.Seqs,
 			"full_compactions":              tot.Full,
 			"partial_compactions":           tot.Partial,
